@@ -48,6 +48,8 @@ def paths_model(result, G, source, cutoff):
 
 
 REG.add(Contract("networkx:single_source_shortest_path", params=dict(G=MOL, source=TNode, cutoff=TInt), result=PATHS,
+                 requires={"the source is a node of the graph (networkx raises NodeNotFound otherwise)": "source in G.nodes",
+                           "a non-negative cut-off (with a negative one networkx still returns the source itself)": "cutoff >= 0"},
                  ensures={"one shortest path for exactly the nodes within `cutoff` bonds; its length is the distance + 1": "paths_model(result, G, source, cutoff)"},
                  spec_fns=dict(paths_model=paths_model), trusted=True, note="networkx (breadth-first search)"))
 
@@ -66,6 +68,7 @@ def nb_members(result, graph, source, max_length, min_length):
 NEIGHBORHOOD = REG.add(Contract(
     "polyply.src.graph_utils:neighborhood",
     params=dict(graph=MOL, source=TNode, max_length=TInt, min_length=TInt), result=TList(TNode),
+    requires={"the source is a node of the graph": "source in graph.nodes", "a non-negative maximal distance": "max_length >= 0"},
     ensures={"only nodes within max_length bonds of the source, all nodes between min_length and max_length bonds away, each once":
              "nb_members(result, graph, source, max_length, min_length)"},
     spec_fns=dict(nb_members=nb_members), props=("C14",),
@@ -92,6 +95,11 @@ def allows(mol, a, b):
     return z3.And(is_node(mol, a), z3.Not(ea.none), a != b, is_node(mol, b), conn(mol, a, b), dist(mol, a, b) <= ea.val)
 
 
+def _excl_lists(mol, old_mol):
+    from pyvc.types import to_slist
+    return (to_slist(mol.fields["interactions"].fields["exclusions"], INTER), to_slist(old_mol.fields["interactions"].fields["exclusions"], INTER))
+
+
 def listed(E, a, b, lo, hi):
     e = slist_get(E, i_).fields["atoms"]
     return z3.Exists([i_], z3.And(lo <= i_, i_ < hi, z3.Or(z3.And(e[0] == a, e[1] == b), z3.And(e[0] == b, e[1] == a))))
@@ -99,7 +107,7 @@ def listed(E, a, b, lo, hi):
 
 def new_exclusions_sound(mol, old_mol, upto_pos=None, k=None, cur=None, cur_list=None, kb=None):
     """every exclusion added is wanted by one of its two atoms (visited so far)"""
-    E, E0 = mol.fields["interactions"].fields["exclusions"], old_mol.fields["interactions"].fields["exclusions"]
+    E, E0 = _excl_lists(mol, old_mol)
     e = slist_get(E, i_).fields["atoms"]
 
     def src_ok(a, b):
@@ -117,7 +125,7 @@ def new_exclusions_sound(mol, old_mol, upto_pos=None, k=None, cur=None, cur_list
 
 def new_exclusions_complete(mol, old_mol, had, wit, upto_pos=None, k=None):
     """every wanted pair (of the atoms visited so far) has its exclusion among the added ones (ghost index) and is remembered"""
-    E, E0 = mol.fields["interactions"].fields["exclusions"], old_mol.fields["interactions"].fields["exclusions"]
+    E, E0 = _excl_lists(mol, old_mol)
     seen = z3.BoolVal(True) if upto_pos is None else upto_pos(a_) < k
     w = wit.comps[0][key_term(wit.k, (a_, b_))]
     e = slist_get(E, w).fields["atoms"]
@@ -127,7 +135,7 @@ def new_exclusions_complete(mol, old_mol, had, wit, upto_pos=None, k=None):
 
 def had_mirrors(mol, old_mol, had):
     """had_excl holds exactly the unordered pairs of the exclusions added so far, in the same order: no pair is added twice"""
-    E, E0 = mol.fields["interactions"].fields["exclusions"], old_mol.fields["interactions"].fields["exclusions"]
+    E, E0 = _excl_lists(mol, old_mol)
     e = slist_get(E, E0.n + i_).fields["atoms"]
     h = slist_get(had, i_)
     return z3.And(had.n == E.n - E0.n,
@@ -143,7 +151,7 @@ def unchanged_else(mol, old_mol):
 
 def complete_now(mol, old_mol, pos=None, k=None, cur=None, cur_list=None, kb=None):
     """every pair wanted by an atom visited so far is among the added exclusions"""
-    E, E0 = mol.fields["interactions"].fields["exclusions"], old_mol.fields["interactions"].fields["exclusions"]
+    E, E0 = _excl_lists(mol, old_mol)
     seen = z3.BoolVal(True) if pos is None else pos(a_) < k
     main = z3.ForAll([a_, b_], z3.Implies(z3.And(wants(old_mol, a_, b_), seen), listed(E, a_, b_, E0.n, E.n)))
     if cur is None:
@@ -154,7 +162,7 @@ def complete_now(mol, old_mol, pos=None, k=None, cur=None, cur_list=None, kb=Non
 
 def no_duplicates(mol, old_mol):
     """the i-th and the j-th ADDED exclusion (i < j) join different unordered pairs"""
-    E, E0 = mol.fields["interactions"].fields["exclusions"], old_mol.fields["interactions"].fields["exclusions"]
+    E, E0 = _excl_lists(mol, old_mol)
     ei, ej = slist_get(E, E0.n + i_).fields["atoms"], slist_get(E, E0.n + j_).fields["atoms"]
     return z3.ForAll([i_, j_], z3.Implies(z3.And(0 <= i_, i_ < j_, j_ < E.n - E0.n),
                                           z3.Not(z3.Or(z3.And(ei[0] == ej[0], ei[1] == ej[1]), z3.And(ei[0] == ej[1], ei[1] == ej[0])))))
@@ -163,6 +171,7 @@ def no_duplicates(mol, old_mol):
 EXPAND = REG.add(Contract(
     "polyply.src.apply_links:expand_excl",
     params=dict(molecule=MOL), result=MOL,
+    requires={"a non-negative molecule-wide exclusion distance": "molecule.nrexcl >= 0"},
     ensures={"every exclusion added joins two different atoms one of which carries an exclusion distance beyond the molecule's and has the other within it":
              "new_exclusions_sound(molecule, old(molecule))",
              "every such pair gets an exclusion": "complete_now(molecule, old(molecule))",
